@@ -289,6 +289,21 @@ func CancelRun(run, progIdx int, p *prog.Program, cancelAt int, o Options, label
 	r.mu.Lock()
 	r.add(Rec{Ev: "subclosed", Ok: sclosed})
 	r.mu.Unlock()
+	// events handed to the instance after it was cancelled: every delivery returns (nothing is
+	// listening any more; nobody drains the nodes' inboxes)
+	{
+		returned := 0
+		for k := 0; k < 6; k++ {
+			if callWithin(o.T/2, func() { _, _ = inst.ConsumeEvent(event.NewSignalEvent("after-cancel")) }) {
+				returned++
+			} else {
+				break
+			}
+		}
+		r.mu.Lock()
+		r.add(Rec{Ev: "postdeliver", Ok: returned == 6, N: returned})
+		r.mu.Unlock()
+	}
 	// census: poll until nothing labelled is left (bounded)
 	n, where := 0, ""
 	for i := 0; i < 60; i++ {
